@@ -282,6 +282,9 @@ pub fn emit_case_known(out: &mut dyn Write, group: &str, c: &Case, verbose: bool
             fails.push("C15:panicked-without-injected-panic".into());
         } else {
             let ok = match &c.term {
+                // in sequential mode the by-key selections are std's exactly (first minimal, last
+                // maximal element); in parallel runs ties are unspecified: any extremal element
+                TermD::MinByKey(_) | TermD::MaxByKey(_) if fp_all_sequential(c) => r.outcome == ex.out,
                 TermD::MinByKey(_) | TermD::MaxByKey(_) => match &r.outcome {
                     Outcome::Opt(g) => key_extremal_ok(&ex.seq_vals, &c.term, *g),
                     _ => false,
@@ -1739,9 +1742,9 @@ pub fn run(out: &mut dyn Write, prop: &str, seed: u64, thorough: bool) -> std::i
                     let ops: Vec<OpD> = ch.0.chars().map(|k| gen_op(&mut rng, k)).collect();
                     let mut sets = vec![vec![]; ops.len() + 1];
                     if rep > 0 {
-                        for _ in 0..rng.range(1, 3) {
+                        for _ in 0..rng.range(1, 4) {
                             let pos = rng.below(ops.len() as u64 + 1) as usize;
-                            sets[pos].push(*rng.pick(&[SetD::NtUsize(1), SetD::NtUsize(3), SetD::NtUsize(6), SetD::CsUsize(4), SetD::NtUsize(0), SetD::CsEnum(ChunkSize::Min(nz(2)))]));
+                            sets[pos].push(*rng.pick(&[SetD::NtUsize(1), SetD::NtUsize(3), SetD::NtUsize(6), SetD::CsUsize(4), SetD::NtUsize(0), SetD::CsEnum(ChunkSize::Min(nz(2))), SetD::CsUsize(0), SetD::CsEnum(ChunkSize::Auto), SetD::NtEnum(NumThreads::Auto)]));
                         }
                     }
                     let src_kind = *rng.pick(&['v', 'k', 'u']);
